@@ -31,7 +31,7 @@ From RM Require Import Model.EncTimingSpec Proofs.ControlPointsFacts Proofs.EncT
 From RM Require Import Proofs.Enc2Values Proofs.Enc2Samples Proofs.Enc2Float Proofs.Enc2Timing Proofs.Enc2Slider Proofs.Enc2Examples.
 From RM Require Proofs.Enc2SvReal.
 From RM Require Import Proofs.Enc2SvRT Proofs.Enc2Framing Proofs.Enc2SampleShape.
-From RM Require Import Proofs.Enc3Framing Proofs.Enc3Timing.
+From RM Require Import Proofs.Enc3Framing Proofs.Enc3Timing Proofs.Enc3Objects Proofs.Enc3Map Proofs.Enc3Example.
 From Coq Require Reals.
 From RM Require Model.Curve.
 From RM Require Import Model.DrvEnc Proofs.EncMapImage.
@@ -954,6 +954,145 @@ Proof.
            (decode_image_inv dist lines m Hl Hd H23) He Hd2).
 Qed.
 Print Assumptions C02_encoding_computed_sections.
+
+(* T02b / T02e composed.  Vocabulary (Proofs/Enc3Objects.v, Proofs/Enc3Map.v):
+   [final_rel lm h o]: what the second decode's object [o] is with respect to the written object [h]
+     -- a circle / spinner / hold: carry_object o = carry_object h (start, kind, position, combo flag
+     and offset, duration, sample names and banks); a slider: the conclusion of
+     C02_slider_round_trip_partial (same start, position, control points, repeat count, node count,
+     expected length re-read from the written one, THE SAME CURVE);
+   [objects_classes lm m]: the recorded classes of the hit-object part -- every object outside its
+     classes ([obj_classes]: D30; spinner / hold: D26 and the time condition, i.e. outside D33;
+     slider: [slider_ok] = D13 / D17 / consecutive Catmull / D21 / D30, a computable curve, and read
+     under the map's mode = outside D22), and [combo_chain]: the new-combo flags the decoder derives
+     from the order of the lines (first object, after a spinner, first object after each break) are
+     already set -- true when the hit-object lines of the input were in chronological order, which
+     is the hypothesis of the property.
+   The map-level processing of the second decode is shown to reproduce the stored values: the
+   stable sort is the identity on the (sorted: C15) written list, the break post-processing and the
+   parser re-derive flags that are set, SamplePoint::apply only touches what [carry_object] erases. *)
+Theorem C02_decode_of_encoding_hit_objects :
+  forall lm fmt_f64 fmt_f32 fmt_int,
+  fmt_ok fmt_f64 fmt_f32 fmt_int -> no_leading_zero fmt_int -> fmt_f32_int fmt_f32 fmt_int ->
+  forall events lines m c ls dist2 m2,
+  Forall no_lf_line lines -> decode_beatmap (dist_real lm) lines = Done m -> d23_class m = false ->
+  enc_control_points (dist_real lm) events m = Done c ->
+  rt_classes (g_mode (hov_general (bmv_ho m))) c = true ->
+  objects_classes lm m ->
+  encode_lines (dist_real lm) events m = Done ls ->
+  decode_beatmap dist2 (map (render fmt_f64 fmt_f32 fmt_int) ls) = Done m2 ->
+  Forall2 (final_rel lm) (hov_hit_objects (bmv_ho m)) (hov_hit_objects (bmv_ho m2)).
+Proof. exact decoded_encoding_objects. Qed.
+Print Assumptions C02_decode_of_encoding_hit_objects.
+
+(* the [HitObjects] body alone, line by line, in any parser state of the map's mode: every line
+   returns, and the list of added objects is in the relation [raw_chain] with the written objects
+   (circle / spinner / hold: EXACTLY [reread_f], a function of "the parser forces a new combo here"
+   and the object; slider: T02e) *)
+Theorem C02_hit_object_lines_reread :
+  forall lm fmt_f64 fmt_f32 fmt_int, fmt_ok fmt_f64 fmt_f32 fmt_int -> fmt_f32_int fmt_f32 fmt_int ->
+  forall mode objs ls,
+  object_lines (dist_real lm) mode objs = Done ls -> Forall (line_hyps lm mode) objs ->
+  forall st, ho_mode st = mode ->
+  exists st' rs raws,
+    ho_run st (map (render fmt_f64 fmt_f32 fmt_int) ls) = Done (st', rs) /\
+    ho_objects st' = ho_objects st ++ raws /\
+    raw_chain lm mode (fs st) objs raws.
+Proof. exact object_lines_reread. Qed.
+Print Assumptions C02_hit_object_lines_reread.
+
+(* ---------- the top-level statement ---------- *)
+
+(* ONE statement: for every decoded map m (decoded with the real curve model, any libm) outside the
+   recorded classes -- D23 (simple sections), [rt_classes] (timing: D28 / D8, D27, D12, D26 / D32),
+   [objects_classes] (hit objects: D30, D26, D33, D13 / D17 / consecutive Catmull, D21, D22, and the
+   chronological-order hypothesis of the property) --, every line list the encoder produces for it,
+   every formatting satisfying the Display hypotheses and whatever the curve function of the second
+   decode: if the second decode succeeds with m2, then
+     - version, general, editor, metadata, difficulty, events and colours of m2 are those of
+       [read_back m]                                                                   (T02a),
+     - m2 has the timing points of m, and the slider-velocity / kiai / scroll-speed timelines
+       agree at every time                                                              (T02d),
+     - the hit objects correspond one to one in [final_rel]                      (T02b / T02e).
+   Left out of [final_rel] for sliders: new-combo flag / offset, the slider's own samples and its
+   node samples (C02_slider_node_* below for the line level; file names on nodes are class D31), the
+   velocity (a function of data shown equal: C02_slider_velocity_round_trip). *)
+Theorem C02_round_trip_decoded_map :
+  forall lm fmt_f64 fmt_f32 fmt_int,
+  fmt_ok fmt_f64 fmt_f32 fmt_int -> no_leading_zero fmt_int -> fmt_f32_int fmt_f32 fmt_int ->
+  forall events lines m c ls dist2 m2,
+  Forall no_lf_line lines -> decode_beatmap (dist_real lm) lines = Done m -> d23_class m = false ->
+  enc_control_points (dist_real lm) events m = Done c ->
+  rt_classes (g_mode (hov_general (bmv_ho m))) c = true ->
+  objects_classes lm m ->
+  encode_lines (dist_real lm) events m = Done ls ->
+  decode_beatmap dist2 (map (render fmt_f64 fmt_f32 fmt_int) ls) = Done m2 ->
+  let c0 := hov_control_points (bmv_ho m) in
+  let c2 := hov_control_points (bmv_ho m2) in
+  (bmv_version m2 = bmv_version m /\
+   hov_general (bmv_ho m2) = hov_general (bmv_ho (read_back m)) /\
+   bmv_editor m2 = bmv_editor (read_back m) /\
+   bmv_metadata m2 = bmv_metadata (read_back m) /\
+   hov_difficulty (bmv_ho m2) = hov_difficulty (bmv_ho (read_back m)) /\
+   hov_events (bmv_ho m2) = hov_events (bmv_ho (read_back m)) /\
+   bmv_colors m2 = bmv_colors (read_back m)) /\
+  (cp_timing c2 = cp_timing c0 /\
+   (forall t, sv_at c2 t = sv_at c0 t) /\
+   (forall t, kiai_at c2 t = kiai_at c0 t) /\
+   (forall t, scroll_at c2 t = scroll_at c0 t)) /\
+  Forall2 (final_rel lm) (hov_hit_objects (bmv_ho m)) (hov_hit_objects (bmv_ho m2)).
+Proof. exact round_trip_decoded_map. Qed.
+Print Assumptions C02_round_trip_decoded_map.
+
+(* non-vacuity: the hypotheses are satisfiable by a concrete decoded map with a circle, a slider,
+   a spinner and a hold (plus a break and an inherited timing line), real curve and slider-event
+   models: it is outside every class ... *)
+Example C02_round_trip_hypotheses_example :
+  match decode_beatmap (dist_real lm0) (lines_of_text all_kinds_text) with
+  | Done m =>
+      match enc_control_points (dist_real lm0) events_real m with
+      | Done c =>
+          forallb (fun l => negb (memb ch_lf l)) (lines_of_text all_kinds_text) = true /\
+          d23_class m = false /\
+          rt_classes (g_mode (hov_general (bmv_ho m))) c = true /\
+          objects_classes_b lm0 m = true /\
+          map (fun h => kind_tag (h_kind h)) (hov_hit_objects (bmv_ho m)) = [0; 1; 2; 3] /\
+          match encode_lines (dist_real lm0) events_real m with Done ls => length ls = 48%nat | _ => False end
+      | _ => False
+      end
+  | _ => False
+  end.
+Proof. exact all_kinds_facts. Qed.
+
+Example C02_objects_classes_checker :
+  forall lm m, objects_classes_b lm m = true -> objects_classes lm m.
+Proof. exact objects_classes_b_ok. Qed.
+
+(* ... so the conclusion holds of it, for every formatting and every second curve function *)
+Example C02_round_trip_example :
+  forall fmt_f64 fmt_f32 fmt_int, fmt_ok fmt_f64 fmt_f32 fmt_int -> no_leading_zero fmt_int -> fmt_f32_int fmt_f32 fmt_int ->
+  exists m c ls,
+    decode_beatmap (dist_real lm0) (lines_of_text all_kinds_text) = Done m /\
+    enc_control_points (dist_real lm0) events_real m = Done c /\
+    encode_lines (dist_real lm0) events_real m = Done ls /\
+    d23_class m = false /\ rt_classes (g_mode (hov_general (bmv_ho m))) c = true /\ objects_classes lm0 m /\
+    map (fun h => kind_tag (h_kind h)) (hov_hit_objects (bmv_ho m)) = [0; 1; 2; 3] /\
+    forall dist2 m2, decode_beatmap dist2 (map (render fmt_f64 fmt_f32 fmt_int) ls) = Done m2 ->
+      let c0 := hov_control_points (bmv_ho m) in
+      let c2 := hov_control_points (bmv_ho m2) in
+      (bmv_version m2 = bmv_version m /\
+       hov_general (bmv_ho m2) = hov_general (bmv_ho (read_back m)) /\
+       bmv_editor m2 = bmv_editor (read_back m) /\
+       bmv_metadata m2 = bmv_metadata (read_back m) /\
+       hov_difficulty (bmv_ho m2) = hov_difficulty (bmv_ho (read_back m)) /\
+       hov_events (bmv_ho m2) = hov_events (bmv_ho (read_back m)) /\
+       bmv_colors m2 = bmv_colors (read_back m)) /\
+      (cp_timing c2 = cp_timing c0 /\
+       (forall t, sv_at c2 t = sv_at c0 t) /\
+       (forall t, kiai_at c2 t = kiai_at c0 t) /\
+       (forall t, scroll_at c2 t = scroll_at c0 t)) /\
+      Forall2 (final_rel lm0) (hov_hit_objects (bmv_ho m)) (hov_hit_objects (bmv_ho m2)).
+Proof. exact all_kinds_round_trip. Qed.
 
 (* ---------- status of the remaining obligations ----------
 
